@@ -1,7 +1,197 @@
-import SpVerif.Model.Geom
+import SpVerif.Lemmas.Winding
+import SpVerif.Model.GeomProto
+/-!
+# C02 — point-versus-shape `intersects` is exact
+
+Theorems about the kernels of `spatialpandas/geometry/_algorithms/intersection.py` as modelled in `Model/Geom.lean`
+(`segPoint`, `pointLine`, `edgeContrib`/`ringWinding`/`winding`/`pointInRings`) with integer coordinates standing for the
+exactly representable coordinates the property quantifies over; rational points (`ℚ × ℚ`) are used to say what "lies on a
+segment" means.
+
+* point / multipoint / line / multiline: **exact** (`C02_point_point` … `C02_point_multiline`).
+* polygon / multipolygon: the winding loop is pinned down operator by operator (`C02_edge_rule`, its geometric reading
+  `C02_edge_rule_geometric`), shown antisymmetric under reversal of an edge and of a ring, zero outside the bounding box of a
+  closed ring, and the decision logic "inside a shell and in none of its holes" is derived from the per-ring facts
+  (`C02_polygon_logic`, `C02_multipolygon_logic`).  That the per-ring winding number of a *simple* ring is ±1 exactly on its
+  interior (Jordan curve theorem) is **not** proved here: the polygon clause is therefore `_partial`, see DESIGN.md.
+-/
 namespace SpVerif
 open Geom
-/-- a horizontal edge never contributes to the winding number (the kernel skips it) -/
+
+/-- point versus point: equality -/
+theorem C02_point_point (p q : Pt) : pointPoint p q = true ↔ p = q := by simp [pointPoint]
+
+/-- point versus multipoint: membership -/
+theorem C02_point_multipoint (p : Pt) (qs : List Pt) : pointMultiPoint p qs = true ↔ p ∈ qs := by
+  simp only [pointMultiPoint, List.any_eq_true, beq_iff_eq]
+  constructor
+  · rintro ⟨x, hx, rfl⟩; exact hx
+  · intro h; exact ⟨p, h, rfl⟩
+
+/-- `segment_intersects_point` is exact: True exactly when the point lies on the closed segment (zero-length segments and
+points collinear with the segment but beyond its end included) -/
+theorem C02_segment_point (p : Pt) (s : Pt × Pt) : segPoint p s = true ↔ OnSeg s.1 s.2 ((p.1 : ℚ), (p.2 : ℚ)) :=
+  segPoint_iff p s
+
+/-- point versus line (and ring): True exactly when the point is a vertex or lies on a segment -/
+theorem C02_point_line (p : Pt) (l : List Pt) : pointLine p l = true ↔ LinePoint l ((p.1 : ℚ), (p.2 : ℚ)) :=
+  pointLine_iff p l
+
+/-- point versus multiline: True exactly when it lies on one of the lines -/
+theorem C02_point_multiline (p : Pt) (ls : List (List Pt)) :
+    pointMultiLine p ls = true ↔ ∃ l ∈ ls, LinePoint l ((p.1 : ℚ), (p.2 : ℚ)) := by
+  simp only [pointMultiLine, List.any_eq_true, pointLine_iff]
+
+/-- **the edge rule**: the coded contribution of the directed edge `a → b` to the winding number at `p` is `+1` for an edge
+that crosses the height of `p` upwards (half-open: `a.y < p.y ≤ b.y`) with `p` on its left or on it, `-1` for one that
+crosses it downwards with `p` on its right or on it, and `0` otherwise — horizontal edges never count.  Every comparison
+operator of `point_intersects_polygon` is fixed by this closed form. -/
+theorem C02_edge_rule (p a b : Pt) :
+    edgeContrib p a b =
+      if a.2 < p.2 ∧ p.2 ≤ b.2 ∧ 0 ≤ orientI a b p then 1
+      else if b.2 < p.2 ∧ p.2 ≤ a.2 ∧ orientI a b p ≤ 0 then -1 else 0 := edgeContrib_eq p a b
+
+/-- **geometric reading of the edge rule**: an edge counts exactly when it spans the height of `p` (half-open at its lower
+end, so a ray through a vertex counts the two edges at that vertex once if they continue through, twice or not at all if
+they turn back) and its point at that height is at or to the right of `p` -/
+theorem C02_edge_rule_geometric (p a b : Pt) :
+    edgeContrib p a b ≠ 0 ↔ (min a.2 b.2 < p.2 ∧ p.2 ≤ max a.2 b.2) ∧ ∃ x : ℚ, (p.1 : ℚ) ≤ x ∧ OnSeg a b (x, (p.2 : ℚ)) :=
+  edgeContrib_ne_zero_iff p a b
+
+/-- a horizontal edge never contributes (the kernel skips it) -/
 theorem C02_horizontal_edge_skipped (p a b : Pt) (h : a.2 = b.2) : edgeContrib p a b = 0 := by
   simp [edgeContrib, h]
+
+/-- reversing an edge negates its contribution; walking a ring backwards negates its winding number -/
+theorem C02_reversal (p : Pt) : (∀ a b, edgeContrib p b a = - edgeContrib p a b) ∧
+    (∀ r, ringWinding p r.reverse = - ringWinding p r) :=
+  ⟨edgeContrib_swap p, ringWinding_reverse p⟩
+
+/-- **far away**: the winding number of a closed ring about a point outside its bounding box is zero -/
+theorem C02_winding_far (p : Pt) (r : List Pt) (hc : Closed r) (bb : Box) (hbb : bboxOf r = some bb) (hout : ¬ BoxHas bb p) :
+    ringWinding p r = 0 := ringWinding_far p r hc bb hbb hout
+
+/-! ### decision logic for polygons with holes and for multipolygons -/
+
+theorem winding_eq_sum (p : Pt) (rings : List (List Pt)) : winding p rings = (rings.map (ringWinding p)).sum := by
+  unfold winding
+  have : ∀ (acc : Int), rings.foldl (fun acc r => acc + ringWinding p r) acc = acc + (rings.map (ringWinding p)).sum := by
+    induction rings with
+    | nil => intro acc; simp
+    | cons r rs ih => intro acc; simp only [List.foldl_cons, List.map_cons, List.sum_cons]; rw [ih]; omega
+  rw [this]; omega
+
+/-- sum over the holes of `[p inside h]` when at most one hole contains `p` -/
+theorem sum_ind_le_one (ins : List Pt → Bool) (holes : List (List Pt))
+    (hd : holes.Pairwise (fun h1 h2 => ¬ (ins h1 = true ∧ ins h2 = true))) :
+    ((holes.map (fun h => if ins h then (1 : Int) else 0)).sum = 0 ∧ ∀ h ∈ holes, ins h = false) ∨
+    ((holes.map (fun h => if ins h then (1 : Int) else 0)).sum = 1 ∧ ∃ h ∈ holes, ins h = true) := by
+  induction holes with
+  | nil => left; simp
+  | cons x xs ih =>
+    rw [List.pairwise_cons] at hd
+    obtain ⟨hx, hxs⟩ := hd
+    rcases ih hxs with ⟨s0, hall⟩ | ⟨s1, h, hh, hi⟩
+    · cases hix : ins x with
+      | false => left; simp only [List.map_cons, List.sum_cons, hix]; refine ⟨by simp [s0], ?_⟩
+                 intro h hm; rcases List.mem_cons.mp hm with rfl | hm
+                 · exact hix
+                 · exact hall h hm
+      | true => right; simp only [List.map_cons, List.sum_cons, hix]; exact ⟨by simp [s0], x, by simp, hix⟩
+    · have hix : ins x = false := by
+        cases hix : ins x with
+        | false => rfl
+        | true => exact absurd ⟨hix, hi⟩ (hx h hh)
+      right; simp only [List.map_cons, List.sum_cons, hix]
+      exact ⟨by simp [s1], h, List.mem_cons_of_mem _ hh, hi⟩
+
+/-- **polygon with holes**: let `ins r` say whether `p` is strictly inside ring `r`.  If the shell's winding number about `p`
+is `o·[p inside shell]` and every hole's is `-o·[p inside hole]` (`o = ±1`: holes wound opposite to their shell, either way
+round — the per-ring fact), at most one hole contains `p` (holes disjoint) and a point inside a hole is inside the shell
+(holes inside their shell), then the kernel answers True exactly when `p` is inside the shell and in none of its holes. -/
+theorem C02_polygon_logic (p : Pt) (shell : List Pt) (holes : List (List Pt)) (ins : List Pt → Bool) (o : Int)
+    (ho : o = 1 ∨ o = -1)
+    (hs : ringWinding p shell = if ins shell then o else 0)
+    (hh : ∀ h ∈ holes, ringWinding p h = if ins h then -o else 0)
+    (hd : holes.Pairwise (fun h1 h2 => ¬ (ins h1 = true ∧ ins h2 = true)))
+    (hin : ∀ h ∈ holes, ins h = true → ins shell = true) :
+    pointPolygon p (shell :: holes) = true ↔ (ins shell = true ∧ ∀ h ∈ holes, ins h = false) := by
+  unfold pointPolygon pointInRings
+  rw [winding_eq_sum]
+  simp only [List.map_cons, List.sum_cons, hs]
+  have e : (holes.map (ringWinding p)).sum = -o * (holes.map (fun h => if ins h then (1 : Int) else 0)).sum := by
+    clear hd hin
+    induction holes with
+    | nil => simp
+    | cons x xs ih =>
+      simp only [List.map_cons, List.sum_cons]
+      rw [ih (fun h hm => hh h (List.mem_cons_of_mem _ hm)), hh x (by simp)]
+      cases ins x <;> simp <;> ring
+  rw [e]
+  rcases sum_ind_le_one ins holes hd with ⟨s0, hall⟩ | ⟨s1, h, hm, hi⟩
+  · rw [s0]
+    cases hsx : ins shell with
+    | false => simp
+    | true =>
+      simp only [if_true, mul_zero, add_zero, bne_iff_ne, ne_eq, true_and]
+      constructor
+      · intro _; exact hall
+      · intro _; rcases ho with rfl | rfl <;> decide
+  · rw [s1]
+    have hsx := hin h hm hi
+    simp only [hsx, if_true, mul_one, bne_iff_ne, ne_eq, true_and]
+    constructor
+    · intro hne; exfalso; apply hne; ring
+    · intro hall; rw [hall h hm] at hi; cases hi
+
+/-- **multipolygon**: the winding number of a multipolygon is the sum over its parts, so when at most one part has `p` in its
+region (parts with disjoint interiors) the kernel answers True exactly when some part does -/
+theorem C02_multipolygon_logic (p : Pt) (parts : List (List (List Pt)))
+    (hd : parts.Pairwise (fun a b => ¬ (winding p a ≠ 0 ∧ winding p b ≠ 0))) :
+    pointMultiPolygon p parts = true ↔ ∃ part ∈ parts, pointPolygon p part = true := by
+  unfold pointMultiPolygon pointPolygon pointInRings
+  have hsum : winding p parts.flatten = (parts.map (winding p)).sum := by
+    rw [winding_eq_sum, List.map_flatten, List.sum_flatten]
+    congr 1
+    rw [List.map_map]
+    apply List.map_congr_left
+    intro a _
+    simp only [Function.comp, winding_eq_sum]
+  rw [hsum]
+  simp only [bne_iff_ne, ne_eq]
+  clear hsum
+  induction parts with
+  | nil => simp
+  | cons x xs ih =>
+    rw [List.pairwise_cons] at hd
+    obtain ⟨hx, hxs⟩ := hd
+    have ih' := ih hxs
+    simp only [List.map_cons, List.sum_cons, List.mem_cons, exists_eq_or_imp]
+    by_cases hx0 : winding p x = 0
+    · rw [hx0, zero_add]; simp only [hx0, not_true_eq_false, false_or]; exact ih'
+    · have hz : ∀ y ∈ xs, winding p y = 0 := by
+        intro y hy; by_contra hc; exact hx y hy ⟨hx0, hc⟩
+      have hs0 : ∀ (ys : List (List (List Pt))), (∀ y ∈ ys, winding p y = 0) → (ys.map (winding p)).sum = 0 := by
+        intro ys
+        induction ys with
+        | nil => intro _; rfl
+        | cons y ys ihy =>
+          intro hzz
+          simp only [List.map_cons, List.sum_cons]
+          rw [hzz y (by simp), ihy (fun y hy => hzz y (List.mem_cons_of_mem _ hy))]; rfl
+      rw [hs0 xs hz, add_zero]
+      simp [hx0]
+
+/-- a missing point gives False in the array forms: the kernels are never run for it -/
+theorem C02_missing_false {α} (dec : Proto.V → Option α) (f : α → Bool) (els : List Proto.V) :
+    GeomProto.mapEl dec f false (Proto.V.none :: els) = (GeomProto.mapEl dec f false els).map (false :: ·) := by
+  simp only [GeomProto.mapEl, List.mapM_cons]
+  cases List.mapM (m := Option) _ els <;> rfl
+
+/-! non-vacuity -/
+example : pointPolygon (2, 2) [[(0,0),(6,0),(6,6),(0,6),(0,0)], [(1,1),(1,3),(3,3),(3,1),(1,1)]] = false ∧
+          pointPolygon (4, 4) [[(0,0),(6,0),(6,6),(0,6),(0,0)], [(1,1),(1,3),(3,3),(3,1),(1,1)]] = true ∧
+          ringWinding (4, 4) [(0,0),(6,0),(6,6),(0,6),(0,0)] = 1 ∧ ringWinding (2, 2) [(1,1),(1,3),(3,3),(3,1),(1,1)] = -1 := by decide
+example : pointLine (2, 2) [(0,0),(4,4)] = true ∧ pointLine (5, 5) [(0,0),(4,4)] = false := by decide
+
 end SpVerif
